@@ -504,7 +504,7 @@ class Fn:
             kty[n] = target
         for k in range(len(ends)):
             vals = [fmt(co[k][n], self.v(n)) if n in co[k] else self.v(n) for n in keep]
-            ret = 'ROk %s' % ('tt' if not vals else vals[0] if len(vals) == 1 else '(%s)' % ', '.join(vals))
+            ret = 'ROk %s' % ('tt' if not vals else paren(vals[0]) if len(vals) == 1 else '(%s)' % ', '.join(vals))
             a = a.replace('@@END%d@@' % k, ret)
             b = b.replace('@@END%d@@' % k, ret)
         env = dict(env)
